@@ -13,6 +13,9 @@ import (
 
 // Guard runs f, converting a panic of the library into an observation. It returns true if f panicked.
 // The innermost canvas frame is recorded as the panic site.
+// AfterCase runs after every case inside the worker (set by the monitors: pool monitor).
+var AfterCase func(o *Obs)
+
 func (o *Obs) Guard(entry string, f func()) (panicked bool) {
 	defer func() {
 		if r := recover(); r != nil {
@@ -172,7 +175,12 @@ func RunWorker(a WorkerArgs) int {
 		done := make(chan struct{})
 		go func() {
 			defer close(done)
-			if o.Guard("monitor", func() { p.Check(c, o) }) {
+			if o.Guard("monitor", func() {
+				p.Check(c, o)
+				if AfterCase != nil {
+					AfterCase(o)
+				}
+			}) {
 				// a panic that escaped every Guard of the monitor: attribute it
 				o.Fail("panic:escaped", "panic escaped the monitor's guards at %s: %s", o.PanicSite, trunc(o.PanicVal, 200))
 			}
